@@ -226,7 +226,8 @@ PROPS = {
               ("evstar", gen.gen_evstar, 0.3), ("diagonal-rows-eager", gen.gen_C05_diag, 0.3)],
         quick=60, thorough=600,
         level_text="Proved: element-wise binary/unary operations are pointwise for an arbitrary scalar function "
-                   "(instantiated with the catalogue in Model/Scalar.v). Tie: tables+dumps for "
+                   "(instantiated with the catalogue in Model/Scalar.v); algebraic laws hold as edge identities "
+                   "(commutative operations, comparison duals, neutral elements). Tie: tables+dumps for "
                    "plus/minus/mult/max/min/distmin/comparisons on integer and real MT forests.",
         level_note=_MODELLED + "IEEE rounding not modelled: real values are exact multiples of 1/2. EV+ "
                    "arithmetic/comparisons (Scalar.ev_scalar2, ev_compare, ev_undefined: +infinity and the three "
